@@ -113,7 +113,8 @@ def check_eq_structural(ctx, rep, type_names):
     construction.  Otherwise two different reported values can pass for the same one."""
     from .extract import flat_scalars
     for f in ctx.facts['fns']:
-        if f.get('derived') or f['name'] not in ('eq', 'ne') or (f.get('impl_trait') or '').split('::')[-1] != 'PartialEq':
+        tr_ = (f.get('impl_trait') or '').split('::')[-1]
+        if f.get('derived') or (f['name'], tr_) not in (('eq', 'PartialEq'), ('ne', 'PartialEq'), ('cmp', 'Ord'), ('partial_cmp', 'PartialOrd')):
             continue
         st = f.get('impl_self') or {}
         if st.get('k') != 'adt' or st.get('path', '').split('::')[-1] not in type_names:
@@ -138,7 +139,27 @@ def check_eq_structural(ctx, rep, type_names):
                             n += 1
                             pa, pb = a0[3][va] or (), b0[3][vb] or ()
                             r = lf.ret
-                            if va != vb:
+                            if f['name'] in ('cmp', 'partial_cmp'):
+                                # only `Equal` is pinned: it must mean same variant and equal payloads
+                                if f['name'] == 'partial_cmp':
+                                    if r is None or r[0] != 'adt':
+                                        raise Undecided('partial_cmp result is not a decided Option')
+                                    r = r[3][0] if r[2] == 1 else ('c', -99, 'isize')
+                                if va != vb or not pa:
+                                    if r[0] != 'c':
+                                        raise Undecided('ordering of variants %d / %d is not a constant' % (va, vb))
+                                    okc = (r[1] == 1) == (va == vb)
+                                elif len(lf.doms[ta]) == 1 and len(lf.doms[tb]) == 1 and len(pa) == 1 and all(x[0] == 'a' for x in pa + pb):
+                                    okc = r[0] == 't' and r[1] == 'Cmp' and tuple(r[2]) in ((pa[0], pb[0]), (pb[0], pa[0]))
+                                    if not okc and all(lf.doms.get(x[1]) is not None for x in pa + pb):
+                                        da, db = sorted(lf.doms[pa[0][1]]), sorted(lf.doms[pb[0][1]])
+                                        if len(da) * len(db) <= (1 << 20):
+                                            okc = all(((r[1] if r[0] == 'c' else ev(r, {pa[0][1]: x, pb[0][1]: y})) == 1) == (x == y) for x in da for y in db)
+                                    if not okc and r[0] == 't':
+                                        raise Undecided('payload ordering of variant %d cannot be decided' % va)
+                                else:
+                                    raise Undecided('payload ordering of variant %d cannot be decided' % va)
+                            elif va != vb:
                                 okc = r[0] == 'c' and r[1] == (0 if f['name'] == 'eq' else 1)
                             elif not pa:
                                 okc = r[0] == 'c' and r[1] == (1 if f['name'] == 'eq' else 0)
@@ -183,9 +204,18 @@ def check_eq_structural(ctx, rep, type_names):
                 for vals in itertools.product(*doms):
                     n += 1
                     asg = dict(zip(names, vals))
-                    got = lf.ret[1] if lf.ret[0] == 'c' else ev(lf.ret, asg)
                     same = all(asg[x[1]] == asg[y[1]] for x, y in zip(fa, fb))
-                    want = int(same) if f['name'] == 'eq' else int(not same)
+                    if f['name'] in ('cmp', 'partial_cmp'):
+                        # an ordering may be any total order, but `Equal` must mean equal: two different keys that compare
+                        # Equal are one key to every BTreeMap / sort / dedup
+                        r_ = conc(lf.ret, asg)
+                        if f['name'] == 'partial_cmp':
+                            r_ = r_[2][0] if (isinstance(r_, tuple) and r_[1] == 1) else None
+                        got = int(r_ == 1)          # index of Ordering::Equal
+                        want = int(same)
+                    else:
+                        got = lf.ret[1] if lf.ret[0] == 'c' else ev(lf.ret, asg)
+                        want = int(same) if f['name'] == 'eq' else int(not same)
                     if got != want and bad is None:
                         bad = ('%s(%s, %s) = %s' % (f['name'], [asg[x[1]] for x in fa], [asg[y[1]] for y in fb], bool(got)), leaf_where(lf))
                 if bad:
@@ -648,6 +678,24 @@ def check_decoding(ctx, rep, tier):
         if not ok:
             rep.finding('C14 setter %s' % name, 'EventDecoder::%s does not simply install the new %s (final state %s); %s' % (
                 name, what, term_str(lv[0].cells.get(('H', 'self'))) if lv else '?', leaf_where(lv[0]) if lv else ''))
+    # the constructor installs the layout and the mode it is given (they are "the current layout and mode" until a setter runs)
+    f = find_generic_method(ctx, ED, 'new')
+    e = Engine(ctx.prog)
+    lv = e.run(f['path'])
+    ok = len(lv) == 1 and lv[0].kind == 'return' and lv[0].ret is not None and lv[0].ret[0] == 'adt'
+    if ok:
+        S0 = _St(lv[0].doms)
+        argv = [e.deep(e.initial_store[('L', 0, i)], S0) for i in (1, 2)]
+        tys = [l['ty'] for l in f['body']['locals'][1:3]]
+        # which argument is the mode / the layout is told by type, not by position
+        i_hc_arg = next((i for i, t_ in enumerate(tys) if t_.get('k') == 'adt' and t_.get('path') == 'HandleControl'), None)
+        i_lay_arg = next((i for i, t_ in enumerate(tys) if t_.get('k') == 'param'), None)
+        ret_ = e.deep(lv[0].ret, S0)
+        ok = i_hc_arg is not None and i_lay_arg is not None and ret_[3][m.i_hc] == argv[i_hc_arg] and ret_[3][m.i_lay] == argv[i_lay_arg]
+    rep.ob('constructor installs its arguments', 1, 1 if ok else 0)
+    if not ok:
+        rep.finding('C14 constructor new', 'EventDecoder::new does not install the layout / Ctrl-handling mode it is given (builds %s); %s' % (
+            term_str(lv[0].ret) if lv and lv[0].ret is not None else '?', leaf_where(lv[0]) if lv else ''))
     f = find_generic_method(ctx, ED, 'get_ctrl_handling')
     e = Engine(ctx.prog)
     lv = e.run(f['path'])
